@@ -65,9 +65,9 @@ def rfc3339_instant(s):
 
 def post(case, r):
     """add the independently computed sha256 / size of every blob and the RFC3339 cross-check"""
-    if not (isinstance(r, list) and len(r) == 2 and r[0] == "ok" and isinstance(r[1], list) and len(r[1]) == 5):
+    if not (isinstance(r, list) and len(r) == 2 and r[0] == "ok" and isinstance(r[1], list) and len(r[1]) == 6):
         return r
-    aux, raw, checked, by_kind, rows = r[1]
+    aux, raw, checked, by_kind, rows, listing = r[1]
     ops = case[1][1]
     new_aux = []
     tcheck = "times-ok"
@@ -81,7 +81,7 @@ def post(case, r):
             want = rfc3339_instant(s)
             if want is None or want != [secs, nanos] or rfc3339_instant(rendered) != want:
                 tcheck = "times-bad: %s -> %s / %d.%09d" % (s, rendered, secs, nanos)
-    return ["ok", [new_aux, raw, checked, by_kind, rows, "sha256:" + hashlib.sha256(b"{}").hexdigest(), tcheck]]
+    return ["ok", [new_aux, raw, checked, by_kind, rows, "sha256:" + hashlib.sha256(b"{}").hexdigest(), tcheck, listing]]
 
 
 def gen(rng, tier):
